@@ -72,11 +72,11 @@ __CPROVER_assigns()
 __CPROVER_ensures(__CPROVER_return_value == ((octet & 0x80u) == 0u))
 ;
 
-/* writes exactly the image of n at the read/write mark; needs room for it */
+/* appends exactly the image of n; needs room for it.  Stated where read mark
+ * and write mark coincide (so it does not matter which of the two an
+ * implementation takes as the place to write to; the tree takes the offset) */
 static int varint_encode(uint64_t n, ByteBuffer *b)
-__CPROVER_requires(__CPROVER_rw_ok(b, sizeof(ByteBuffer)) && b->data != NULL && b->size >= 1
-    && b->offset <= b->size && b->size - b->offset >= spec_varint_len(n)
-    && __CPROVER_rw_ok(b->data, b->size) && !__CPROVER_same_object(b, b->data))
+__CPROVER_requires(VI_ENC_BUF_OK(b) && b->size - b->used >= spec_varint_len(n))
 __CPROVER_assigns(b->used, __CPROVER_object_upto(b->data, b->size))
 __CPROVER_ensures(VI_BUF_DSO_SAME(b))
 __CPROVER_ensures(VI_ENCODED(b, n, __CPROVER_return_value))
@@ -275,12 +275,13 @@ __CPROVER_ensures(IMPLIES(VI_SDEC(source, SPEC_VARINT_MAX64).verdict == SPEC_VAR
     && (((s)->kind == DATA_KIND_OCTET && (s)->sink.octet == st_varint_octet_sink) \
         || ((s)->kind == DATA_KIND_CHUNK && (s)->sink.chunk == st_varint_chunk_sink)) \
     && __CPROVER_rw_ok(VI_SINK(s), sizeof(struct st_vsink)) && !__CPROVER_same_object((s), (s)->driver) \
-    && VI_SINK(s)->cnt <= ST_VSINK_CAP - SPEC_VARINT_MAX64)
+    && VI_SINK(s)->cnt <= ST_VSINK_CAP - SPEC_VARINT_MAX64 && VI_SINK(s)->max_accept >= 1)
 /* accepted: the sink holds exactly the image of v behind what it held before;
  * refused: the sink's code comes back and nothing was delivered */
 #define VI_SINK_POST(s, max, v, ret) \
   ((s)->kind == __CPROVER_old((s)->kind) && (s)->driver == __CPROVER_old((s)->driver) \
    && VI_SINK(s)->rc == __CPROVER_old(VI_SINK(s)->rc) \
+   && VI_SINK(s)->max_accept == __CPROVER_old(VI_SINK(s)->max_accept) \
    && IMPLIES(VI_SINK(s)->rc >= 0, \
       (ret) > 0 && (size_t)(ret) == spec_varint_len(v) && (size_t)(ret) <= (max) \
       && VI_SINK(s)->cnt == __CPROVER_old(VI_SINK(s)->cnt) + spec_varint_len(v) \
